@@ -4,7 +4,25 @@
 #include <string>
 namespace d = boost::msm::front::puml::detail;
 static std::string S(std::string_view v) { return std::string(v); }
-int main() {
+template <int T> static void stt_row(std::string_view text) {
+  auto t = d::parse_stt<T>(text);
+  std::cout << "STT" << T << "\037" << S(t.source) << "\037" << S(t.target) << "\037" << S(t.event) << "\037" << S(t.guard) << "\037" << S(t.action) << "\037";
+}
+// mode "stt": one input line = one whole description, its line ends written as \x1e
+static int stt_mode() {
+  std::string line;
+  while (std::getline(std::cin, line)) {
+    for (auto& c : line) if (c == '\x1e') c = '\n';
+    std::string_view text(line);
+    try {
+      stt_row<0>(text); stt_row<1>(text); stt_row<2>(text); stt_row<3>(text); stt_row<4>(text); stt_row<5>(text);
+      std::cout << "\n";
+    } catch (std::exception&) { std::cout << "THROW\n"; }
+  }
+  return 0;
+}
+int main(int argc, char** argv) {
+  if (argc > 1 && std::string(argv[1]) == "stt") return stt_mode();
   std::string line;
   while (std::getline(std::cin, line)) {
     std::string_view s(line);
